@@ -193,12 +193,26 @@ def replay_rejected_api(p):
             lf.add_channel('Z', cast_dtype='not a dtype')
         elif which == 3:
             lf.add_channel('Z', data='not an array')
-        else:
+        elif which <= 6:
             lf.add_channel('Z', cast_dtype=[0, '', False][which - 4])
+        else:
+            arr = np.arange(3, dtype=np.float64) + 700
+            kw = [{'cast_dtype': 'not a dtype'}, {'properties': ['NOT-A-PROPERTY']}, {'axis': 'not an axis'}, {'long_name': 5}][which - 7]
+            lf.add_channel('Z', data=arr, **kw)
     except (ValueError, RuntimeError, TypeError, AttributeError):
         pass
     else:
         return _res('', {'not_rejected': True})
+    if which >= 7:
+        # a channel of the same name added afterwards WITHOUT data: the write must fail for want of its data set
+        z = lf.add_channel('Z')
+        lf.add_frame('F2', channels=(z,))
+        try:
+            data = _write(df)
+        except (ValueError, RuntimeError, TypeError, KeyError) as e:
+            return _res('', {'later_write': f'refused: {type(e).__name__}'})
+        return _res('a channel Z added without data after a rejected add_channel(Z, data=...) is written with the data of '
+                    'the rejected call', {'file_bytes': len(data)})
     st = ['ZONE', 'PARAMETER', 'CHANNEL', 'CHANNEL', 'CHANNEL', 'CHANNEL', 'CHANNEL'][which]
     bad = ''
     try:
